@@ -118,6 +118,14 @@ func runC14(c *Ctx) {
 			c.check(okH && okP, "C14.hostport.tables", split, "success returns (SplitHostPort host, uint16(parsed port))", ret, "fields are not swapped or re-derived")
 		}
 		// JoinHostPort: net.JoinHostPort(Trim(host,"[]"), FormatUint(...))
+		if len(core.CallsTo(join, "net.JoinHostPort")) == 0 {
+			c.check(false, "C14.hostport.tables", join, "JoinHostPort writes through net.JoinHostPort", nil,
+				"a hand-written join decides differently from net.SplitHostPort which hosts need brackets (any host containing ':' or '%' does), so String() output no longer parses back")
+		}
+		for _, ret := range core.Returns(join) {
+			call, isC := ret.Results[0].(*ssa.Call)
+			c.check(isC && core.CalleeName(&call.Call) == "net.JoinHostPort", "C14.hostport.tables", join, "every result of JoinHostPort is net.JoinHostPort(...)", ret, "one writer")
+		}
 		for _, ci := range core.CallsTo(join, "net.JoinHostPort") {
 			okJ := false
 			a0 := ci.Common().Args[0]
